@@ -21,6 +21,8 @@ SETTING_READS = {"on", "off", "value", "num_probe_vectors", "is_default"}
 # ---- frozen tables (one reason per line) ---------------------------------------------------------------------------
 TRANSIENT_OWNERS = {
     # class -> reason why its memo entries cannot influence a *later* call
+    "MultivariateNormal": "a distribution object is immutable after construction: a lazily computed factor is a function of its own "
+                          "covariance and dies with the object",
     "LazyEvaluatedKernelTensor": "per-call object: created by Kernel.__call__ for one (x1, x2) pair and dropped with the output; "
                                  "the only long-lived instance is held by a prediction strategy (class O)",
 }
@@ -234,28 +236,59 @@ def cached_methods(idx: ProgramIndex) -> List[Tuple[ClassInfo, FuncInfo, str, bo
     return out
 
 
+def _presence_atoms(test: ast.AST, sn: str) -> List[Tuple[str, ast.AST, bool]]:
+    """(attribute, atom, value of the atom when the attribute is ABSENT/None) for every presence test of a self attribute:
+    hasattr(self, "A"), getattr(self, "A", None) is [not] None, self.A is [not] None, "A" in self.__dict__ / vars(self)"""
+    out = []
+    for n in ast.walk(test):
+        if isinstance(n, ast.Call) and call_name(n) == "hasattr" and len(n.args) == 2 and src(n.args[0]) == sn:
+            a = const_str(n.args[1])
+            if a:
+                out.append((a, n, False))
+        elif isinstance(n, ast.Compare) and len(n.ops) == 1 and isinstance(n.comparators[0], ast.Constant) and n.comparators[0].value is None and isinstance(n.ops[0], (ast.Is, ast.IsNot)):
+            l = n.left
+            a = None
+            if isinstance(l, ast.Call) and call_name(l) == "getattr" and len(l.args) >= 2 and src(l.args[0]) == sn:
+                a = const_str(l.args[1])
+            elif isinstance(l, ast.Attribute) and isinstance(l.value, ast.Name) and l.value.id == sn:
+                a = l.attr
+            if a:
+                out.append((a, n, isinstance(n.ops[0], ast.Is)))
+        elif isinstance(n, ast.Compare) and len(n.ops) == 1 and isinstance(n.ops[0], (ast.In, ast.NotIn)) and const_str(n.left) and src(n.comparators[0]) in ("%s.__dict__" % sn, "vars(%s)" % sn):
+            out.append((const_str(n.left), n, isinstance(n.ops[0], ast.NotIn)))
+    return out
+
+
 def attribute_caches(idx: ProgramIndex) -> List[Tuple[ClassInfo, str, List[FuncInfo]]]:
-    """Attributes tested with hasattr(self, "A") in some method and stored by `self.A = ...` in the same class."""
+    """Fill-if-absent attributes: `self.A = <value>` (outside __init__) on a branch that is reachable when a presence test of the
+    same attribute (hasattr / getattr(..., None) is None / self.A is None / "A" in self.__dict__) says *absent*.  A store on the
+    present branch (`if self.A is not None: self.A = f(self.A)`) is an update, not a cache fill."""
+    from ..cfg import eval_guard
     out = []
     for c in sorted(idx.package_classes(), key=lambda c: (c.module.name, c.qualname)):
-        tested: Set[str] = set()
+        found: Dict[str, List[FuncInfo]] = {}
         for m in c.methods.values():
+            if m.name == "__init__" or not m.params or m.kind in ("staticmethod", "classmethod"):
+                continue
+            sn = m.params[0]
             for n in ast.walk(m.node):
-                if isinstance(n, ast.Call) and call_name(n) == "hasattr" and len(n.args) == 2 and src(n.args[0]) == "self":
-                    a = const_str(n.args[1])
-                    if a and a != "_memoize_cache":
-                        tested.add(a)
-        for a in sorted(tested):
-            writers = []
-            for m in c.methods.values():
-                if m.name == "__init__":
+                if not isinstance(n, ast.If):
                     continue
-                for n in ast.walk(m.node):
-                    if isinstance(n, ast.Assign) and any(src(t) == "self." + a for t in n.targets):
-                        writers.append(m)
-                        break
-            if writers:
-                out.append((c, a, writers))
+                for a, atom, absent_value in _presence_atoms(n.test, sn):
+                    if a == "_memoize_cache" or a == "prediction_strategy":
+                        continue  # the memo dict itself (C03-7) and the strategy slot (checked below) have their own rules
+                    v = eval_guard(n.test, {src(atom): absent_value})
+                    branches = ([n.body] if v is not False else []) + ([n.orelse] if v is not True else [])
+                    for br in branches:
+                        for st in br:
+                            for x in ast.walk(st):
+                                if isinstance(x, ast.Assign) and any(isinstance(t, ast.Attribute) and isinstance(t.value, ast.Name) and t.value.id == sn and t.attr == a for t in x.targets):
+                                    if isinstance(x.value, ast.Constant) and x.value.value is None:
+                                        continue
+                                    if m not in found.setdefault(a, []):
+                                        found[a].append(m)
+        for a in sorted(found):
+            out.append((c, a, found[a]))
     return out
 
 
@@ -321,6 +354,9 @@ def inventory(idx: ProgramIndex, rep: Report):
         inst = "%s:%s.%s" % (c.module.name, c.qualname, a)
         if (c.name, a) in STRUCTURAL_ATTR_CACHES:
             rep.add("C03-1", inst, c.where, True, "structural memo by table: %s" % STRUCTURAL_ATTR_CACHES[(c.name, a)], {}, trivial=True)
+            continue
+        if kind in ("O", "T"):
+            rep.add("C03-1", inst, writers[0].where, True, "owner class %s: %s" % (kind, why), {"owner_kind": kind})
             continue
         if kind != "M":
             rep.add("C03-1", inst, c.where, False, "attribute cache on a class without invalidation path", {})
